@@ -1,5 +1,6 @@
 import NrDaemon.Driver.Core
 import NrDaemon.Driver.Containers
+import NrDaemon.Driver.Metrics
 /-!
   Op-line driver (core Lean only; built as a `lean_exe`).
 
@@ -9,6 +10,7 @@ import NrDaemon.Driver.Containers
 
 structure DState where
   cont : ContState := {}
+  mt : MtState := {}
 
 def dispatch (st : DState) (line : String) (impl : Option String) : DState × StepOut :=
   let t := tokenize line
@@ -17,6 +19,7 @@ def dispatch (st : DState) (line : String) (impl : Option String) : DState × St
   | some "err" => let (c, o) := heapStep true st.cont t impl; ({ st with cont := c }, o)
   | some "tr" => let (c, o) := heapStep false st.cont t impl; ({ st with cont := c }, o)
   | some "slow" => let (c, o) := slowStep st.cont t impl; ({ st with cont := c }, o)
+  | some "mt" => let (c, o) := mtStep st.mt t impl; ({ st with mt := c }, o)
   | some "reset" => ({}, { model := "ok" })
   | _ => (st, { model := "bad-op" })
 
